@@ -70,11 +70,10 @@ package app
 
 //@ func RequestContext.Abort(ctx)
 //@   props C12
-//@   requires chainInv(ctx)
 //@   modifies ctx.index, ctx.aborted
 //@   ghostset-at-entry ctx.aborted = true
 //@   top-ensures ctx.aborted && ctx.index == 63
-//@   ensures chainInv(ctx) && ctx.hi == old(ctx.hi) && sameSlice(ctx.handlers, old(ctx.handlers))
+//@   ensures (old(chainInv(ctx)) ==> chainInv(ctx)) && ctx.hi == old(ctx.hi) && sameSlice(ctx.handlers, old(ctx.handlers))
 
 //@ func RequestContext.IsAborted(ctx) r
 //@   props C12
